@@ -265,6 +265,35 @@ def receive_rule(rep, prog, cfg, fn, flavour):
             nz = a["false"] if z == a["true"] else a["true"]
             if C not in reach(g.succs, [zero_t], avoid_edges=[(a["bb"], z)]) and C not in reach(g.succs, [nz], avoid=[a["bb"]]):
                 bytes_ok = True
+    if not (in_prog_ok and bytes_ok):
+        # the guard may be written as a boolean value (`let clean = !in_progress && buf.is_empty()`) instead of nested
+        # branches: decide it by evaluating the boolean locals under each assignment of the two facts (A14)
+        from ..cfg import BoolReach
+
+        def atom_of(kind, bb, obj):
+            if kind == "call":
+                ns = callee_names(obj)
+                if INPROG in ns:
+                    return ("P", False)
+                if any(x.endswith("::is_empty") for x in ns) and obj["args"] and ref_field_of_local(b, op_local(obj["args"][0])) == buf_field:
+                    return ("E", False)
+                return None
+            rv = obj["rv"]
+            z = byte_fact(b, {"kind": "cmp", "op": rv["op"], "lhs": rv["a"], "rhs": rv["b"], "true": "T", "false": "F", "bb": bb}, buf_field, written)
+            if z is None:
+                return None
+            return ("E", z == "F")
+        br = BoolReach(b, atom_of)
+        # the facts are computed after the read returned 0: evaluate from the zero-read edge
+        reach_c = {(p_, e_): C in br.blocks(zero_t, {"P": p_, "E": e_}) for p_ in (False, True) for e_ in (False, True)}
+        if reach_c[(False, True)] and not reach_c[(True, True)] and not reach_c[(True, False)] and not reach_c[(False, False)]:
+            in_prog_ok = bytes_ok = True
+            atoms_seen.append("boolean form: Ok(None) reachable exactly when !in_progress && no unconsumed bytes")
+        else:
+            if not (reach_c[(True, True)] or reach_c[(True, False)]):
+                in_prog_ok = True
+            if not (reach_c[(False, False)] or reach_c[(True, False)]):
+                bytes_ok = True
     where = b.loc(b.blocks[C]["s"][0]["span"]) if b.blocks[C]["s"] else b.loc(b.span)
     rep.check(in_prog_ok, rule, "%s/%s frame-in-progress disjunct" % (cfg, flavour), where,
               "after a 0-byte read, Ok(None) (clean close) is reachable without passing the false side of "
